@@ -291,7 +291,12 @@ Fixpoint read_loop (fuel : nat) (s : st) (f : N) (off len nr : Z) (acc : bytes) 
                let co := c_off c in
                let cs := c_size c in
                let k := key_of f c in
-               let lower := positive (off - co) in
+               let cur := off + nr in
+               (* the chunk handed out must contain the offset being read (repair of DESIGN F7, already in /repo) *)
+               if (co <? 0) || (co + cs <? co) || (cur <? co) || (co + cs <=? cur)
+               then (s, match fs with [] => RErr | _ => RDesync end)
+               else
+               let lower := cur - co in
                let upper := positive (co + cs - (off + len)) in
                let expected := cs - upper - lower in
                if (expected <? 0) || (len <? nr + expected) then (s, RPanic)
@@ -314,7 +319,9 @@ Fixpoint read_loop (fuel : nat) (s : st) (f : N) (off len nr : Z) (acc : bytes) 
                                 | (s1, Some (n, ip)) =>
                                     let '(s2, r) := od_core s1 false f i ip in
                                     match r with
-                                    | OOk => read_loop fuel' s2 f off len (nr + n) (acc ++ slice 0 n ip) fs'
+                                    | OOk =>
+                                        if n =? 0 then (s2, match fs' with [] => ROk acc | _ => RDesync end)   (* no progress: break *)
+                                        else read_loop fuel' s2 f off len (nr + n) (acc ++ slice 0 n ip) fs'
                                     | _ => (s2, match fs' with [] => RErr | _ => RDesync end)
                                     end
                                 end
